@@ -1,4 +1,5 @@
 import ast
+from ..program import norm_stmt
 """C09 -- cumulative intensity measures: length, monotonicity, scaling laws, quadrature kind (typing obligations)."""
 from ..tyob import *  # noqa
 from ..tyob import analyse, expect, unmodelled_in, const_values, check_forwarder, only_managed_reads
@@ -30,6 +31,13 @@ def run(chk):
     chk.rule("R-ARIAS-CONST", "Arias intensity multiplies the trapezoid of a^2 by pi/(2*9.81)")
     chk.rule("R-CAVDP", "standardised CAV: record length, non-negative, nondecreasing (accumulates h*int with h in {0,1}, "
                         "int a trapezoid of |a| over an ascending abscissa), gate 0.025 on |a|/9.81, interpolated onto the record's time")
+    from ..tyob import no_truncation
+    for q, _dr, _dd, _has, _hasnot, _x in TABLE:
+        if q.endswith(("calc_cav", "calc_arias_intensity", "calc_integral_of_abs_acceleration")):
+            # a record with integer-typed samples: no real partial sum may land in a buffer that inherits the integer dtype
+            no_truncation(chk, "R-IM-TYPE", q, lambda I, st, fi: {fi.params[0]: make_signal(I, st, chk.P.cls("eqsig.single.AccSignal"), name=fi.params[0],
+                                                                                             values=rec_array("values", dtype="int"))[1]},
+                          "%s(integer-typed record)" % q.replace("eqsig.im.", "eqsig/im.py:"), what="an integer-typed record")
     for q, dr, dd, has, hasnot, _ in TABLE:
         r = analyse(chk, q, sig_arg(chk.P.fn(q).params[0]))
         c = "%s:%s" % (r.fi.module.relpath, r.fi.name)
@@ -65,15 +73,42 @@ def run(chk):
     while todo_:                       # helpers introduced later that the function names (called, mapped, iterated), transitively
         f_ = todo_.pop()
         for n_ in ast.walk(f_.node):
-            if isinstance(n_, ast.Name) and isinstance(n_.ctx, ast.Load):
-                g_ = f_.module.functions.get(n_.id)
+            if isinstance(n_, (ast.Name, ast.Attribute)) and isinstance(n_.ctx, ast.Load):
+                g_ = f_.module.functions.get(n_.id) if isinstance(n_, ast.Name) else None
+                if g_ is None:
+                    try:
+                        r_ = chk.P.resolve_expr(f_.module, n_)        # a helper imported from another module of the package
+                    except Exception:
+                        r_ = None
+                    g_ = r_[1] if (r_ and r_[0] == "func") else None
                 if g_ is not None and g_.qualname not in _pinned() and g_.qualname not in seen_:
                     seen_.add(g_.qualname)
                     todo_.append(g_)
                     cs = cs + const_values(g_, chk.P)
     partly = any(e.kind == "unmodelled" for e in r.I.events)       # something on the path is not followed: an absent gate proves nothing
+    # absent literals: refuted only when another candidate gate (a small fraction of g) stands in its place; otherwise the gate is not located
+    cand_ = [x for x in set(cs) if isinstance(x, float) and 0 < x < 1 and x not in (0.025, 0.5)]
     chk.ob("R-CAVDP", c + "[gate]", "gate literal 0.025 (g) and 9.81 in the function", 0.025 in cs and 9.81 in cs,
-           derived="literals %s" % sorted(set(cs)), loc=r.fi.loc())
+           derived="literals %s" % sorted(set(cs)), loc=r.fi.loc(), inconclusive=(0.025 not in cs and not cand_) or (9.81 not in cs and 0.025 in cs and partly))
+    # the one-second series records the running total *after* the current window has been added (located design: a loop whose body updates an
+    # accumulator X = X + ... / X += ... and appends X / stores X at the loop index; not located: nothing is claimed here)
+    for lp_ in [n_ for n_ in ast.walk(r.fi.node) if isinstance(n_, ast.For)]:
+        upd_, rec_ = {}, {}
+        for k_, st_ in enumerate(lp_.body):
+            if isinstance(st_, ast.AugAssign) and isinstance(st_.op, ast.Add) and isinstance(st_.target, ast.Name):
+                upd_.setdefault(st_.target.id, k_)
+            elif isinstance(st_, ast.Assign) and len(st_.targets) == 1 and isinstance(st_.targets[0], ast.Name) and isinstance(st_.value, ast.BinOp) and \
+                    isinstance(st_.value.op, ast.Add) and any(isinstance(x_, ast.Name) and x_.id == st_.targets[0].id for x_ in (st_.value.left, st_.value.right)):
+                upd_.setdefault(st_.targets[0].id, k_)
+            elif isinstance(st_, ast.Expr) and isinstance(st_.value, ast.Call) and isinstance(st_.value.func, ast.Attribute) and \
+                    st_.value.func.attr == "append" and len(st_.value.args) == 1 and isinstance(st_.value.args[0], ast.Name):
+                rec_.setdefault(st_.value.args[0].id, (k_, st_))
+            elif isinstance(st_, ast.Assign) and len(st_.targets) == 1 and isinstance(st_.targets[0], ast.Subscript) and isinstance(st_.value, ast.Name):
+                rec_.setdefault(st_.value.id, (k_, st_))
+        for x_ in sorted(set(upd_) & set(rec_)):
+            chk.ob("R-CAVDP", c + "{recorded after update}", "the running total is recorded after the current window's contribution is added",
+                   rec_[x_][0] > upd_[x_], derived="`%s` recorded at statement %d of the loop body, updated at statement %d" % (x_, rec_[x_][0], upd_[x_]),
+                   loc=r.fi.loc(rec_[x_][1]), stmt=norm_stmt(rec_[x_][1]))
     # the gate must compare a max-abs of the window (even, degree 1) -- from the compare events
     gate = [e for e in r.events("compare", r.fi.qualname) if "red:max" in (e.left.tags | e.right.tags)]
     okg = bool(gate) and all("abs" in (e.left.tags | e.right.tags) for e in gate)
